@@ -149,4 +149,22 @@ def gcontentVs : GVals → TextTape.KVals
   | .cons v r => .cons (gcontentV v) (gcontentVs r)
 end
 
+mutual
+/-- the form a tape gives rise to (what `write_tape` does): objects through `write_object_start`,
+arrays and empty containers through `write_array_start`, no explicit `=` operator -/
+def GVal.Canon : GVal → Prop
+  | .scal _ => True
+  | .empty fl => fl = .arrayStart
+  | .obj fl fs => fl = .objectStart ∧ fs.Canon
+  | .arrS u _ rest => u = false ∧ rest.Canon
+  | .arrC u first rest => u = false ∧ first.Canon ∧ rest.Canon
+def GFields.Canon : GFields → Prop
+  | .nil => True
+  | .cons _ o v r => o ≠ some .eq ∧ v.Canon ∧ r.Canon
+  | .hdr _ o _ body r => o ≠ some .eq ∧ body.Canon ∧ r.Canon
+def GVals.Canon : GVals → Prop
+  | .nil => True
+  | .cons v r => v.Canon ∧ r.Canon
+end
+
 end Jomini.Writer.Spec
